@@ -111,6 +111,10 @@ class BaseG2Ciphersuite(ABC):
 
     @staticmethod
     def KeyValidate(PK: BLSPubkey) -> bool:
+        # The decoder ignores everything above bit 383, so the length has to
+        # be checked here: only 48-byte strings are canonical encodings
+        if not BaseG2Ciphersuite._is_valid_pubkey(PK):
+            return False
         try:
             pubkey_point = pubkey_to_G1(PK)
         except (ValidationError, ValueError, AssertionError):
